@@ -99,6 +99,7 @@ var assumptions = []string{
 	"A6 the Go type checker (go/types) and the AST are a faithful view of the compiled program",
 	"A7 no received payload carries this node's own validator index unless this node built it",
 	"A8 payload constructors (Config.New*) return non-nil objects",
+	"A9 a payload whose Type() is PrepareRequestType has a non-nil GetPrepareRequest() (type tag agrees with body)",
 }
 
 // finish writes evidence, prints the verdict lines and returns the exit code.
